@@ -306,7 +306,19 @@ fn defs_src(defs: &[Def], derives: &[(bool, bool)]) -> String {
         if *tj {
             ds.push("ToJson");
         }
-        s.push_str(&format!("#[derive({})]\n", ds.join(", ")));
+        // the derives may be written in one attribute or in separate ones, in either order
+        // (varied deterministically by the definition's position and field count)
+        let variety = match d {
+            Def::Struct { fields, .. } => fields.len(),
+            Def::Enum { variants, .. } => variants.len() + 1,
+        };
+        if ds.len() == 2 && variety % 3 == 1 {
+            s.push_str(&format!("#[derive({})]\n#[derive({})]\n", ds[0], ds[1]));
+        } else if ds.len() == 2 && variety % 3 == 2 {
+            s.push_str(&format!("#[derive({})]\n#[derive({})]\n", ds[1], ds[0]));
+        } else {
+            s.push_str(&format!("#[derive({})]\n", ds.join(", ")));
+        }
         match d {
             Def::Struct { name, fields } => {
                 s.push_str(&format!("struct {} {{\n", name));
